@@ -110,17 +110,17 @@ impl Parseable for Action {
             ),
             unary!("-fprint0", Action::FilePrintNull, String::parse),
             unary!("-fprint", Action::FilePrint, String::parse),
-            terminated("-ls", multispace0).value(Action::List),
-            terminated("-print-file-fid", multispace0).value(Action::PrintFid),
+            literal("-ls").value(Action::List),
+            literal("-print-file-fid").value(Action::PrintFid),
             unary!(
                 "-printf",
                 Action::PrintFormatted,
                 quote_delimiter().and_then(Vec::<FormatElement>::parse)
             ),
-            terminated("-print0", multispace0).value(Action::PrintNull),
-            terminated("-print", multispace0).value(Action::Print),
-            terminated("-prune", multispace0).value(Action::Prune),
-            terminated("-quit", multispace0).value(Action::Quit),
+            literal("-print0").value(Action::PrintNull),
+            literal("-print").value(Action::Print),
+            literal("-prune").value(Action::Prune),
+            literal("-quit").value(Action::Quit),
         ))
         .context(label("action"))
         .parse_next(input)
@@ -261,9 +261,15 @@ pub fn lex(input: &mut &str) -> PResult<Vec<Token>> {
     .parse_next(input)
 }
 
+/// What may follow a primary: blanks, the end of the input, or one of the single character tokens
+/// that can be written directly against it
+fn word_boundary<'a>(input: &mut &'a str) -> PResult<&'a str> {
+    peek(alt((multispace1, eof, ")", ","))).parse_next(input)
+}
+
 /// Consume a single token from the input.
 pub fn token(input: &mut &str) -> PResult<Token> {
-    alt((
+    let token = alt((
         literal("(").value(Token::LParen),
         literal(")").value(Token::RParen),
         literal("!").value(Token::Not),
@@ -279,7 +285,20 @@ pub fn token(input: &mut &str) -> PResult<Token> {
         fail.context(expected("invalid_token")),
     ))
     .context(label("syntax"))
-    .parse_next(input)
+    .parse_next(input)?;
+
+    // A primary is a whole word: anything glued to it (`-true-ls`, `-uid 5x`) is not a token
+    if !matches!(
+        token,
+        Token::LParen | Token::RParen | Token::Not | Token::Comma | Token::Or | Token::And
+    ) {
+        word_boundary
+            .context(expected("invalid_token"))
+            .context(label("syntax"))
+            .parse_next(input)?;
+    }
+
+    Ok(token)
 }
 
 fn _parse(input: &mut &str) -> PResult<(RunOptions, Exp)> {
@@ -288,7 +307,10 @@ fn _parse(input: &mut &str) -> PResult<(RunOptions, Exp)> {
     winnow::Parser::<&str, Vec<GlobalOption>, winnow::error::ContextError>::parse_next(
         &mut preceded(
             multispace0,
-            repeat(0.., terminated(GlobalOption::parse, multispace0)),
+            repeat(
+                0..,
+                terminated(GlobalOption::parse, (word_boundary, multispace0)),
+            ),
         ),
         input,
     )?
